@@ -75,6 +75,12 @@ PsInstances == <<
     M("user:Codon:monomers", 3, "monomers", << <<"kappa", R(3,1)>>, <<"omega", R(1,2)>> >>,
       Pi3(<<1,2,3,4>>, <<2,1,1,1>>, <<1,1,2,2>>), TRUE, TRUE, "k3w")
 >>
+(* parameterisations a TimeReversible class must refuse: one directed term; two mirrored directed terms with different values *)
+RefusedInstances == <<
+    M("user:TimeReversibleNucleotide:directed", 1, "word", << <<"u_fwd", R(3,1)>> >>, Pi1(1,2,3,4), TRUE, TRUE, "one-directed-term"),
+    M("user:TimeReversibleNucleotide:mirrored", 1, "word", << <<"u_fwd", R(3,1)>>, <<"u_bwd", R(5,1)>> >>, Pi1(1,2,3,4), TRUE, TRUE, "mirrored-directed-terms")
+>>
+NoRefused == <<>>
 AllInstances == NucInstances \o CodonInstances \o Gc2Instances \o DinucInstances \o PsInstances
 QuickInstances == NucInstances \o <<CodonInstances[1], CodonInstances[3], CodonInstances[5], Gc2Instances[1], Gc2Instances[3]>> \o DinucInstances \o PsInstances
 CnfOnly == <<CodonInstances[5]>>
